@@ -1,6 +1,7 @@
 import RrModel.Redirect
 import RrModel.Key
 import RrModel.Freshness
+import RrModel.Conditional
 /-
   restart_on_redirect through CACHE-ENABLED rules (C18, cached half), branch for branch:
 
@@ -24,9 +25,22 @@ import RrModel.Freshness
   `hostField`, `parseURL`, `urlEquals`, `redirectedURL`, `reenter` are used as they are there.
 
   Declared domain (what the stream generates): GET, no Range, no conditional request headers, no
-  Authorization / Origin, origin answers without validators, Vary, stale-* directives or Expires,
-  statuses 200 / 404 / 301-308 with non-empty bodies, no copy rules, no retry_rule, no
-  response_headers, force_revalidate 0.  A branch outside it ends the run with `Sent.outside`.
+  Authorization / Origin, origin answers with or without an ETag (no Last-Modified), without Vary,
+  stale-* directives or Expires, statuses 200 / 404 / 301-308 with non-empty bodies and — to a
+  conditional request that names the current ETag — 304; no copy rules, no retry_rule, no
+  response_headers, force_revalidate 0, ETAG_SUFFIX unset.  A branch outside it ends the run with
+  `Sent.outside`.
+
+  Validators (server.go:346-357, 381-398; caching.go SetRevalidatedAndClose; disk.go Close, branch
+  `sw.fd == nil && sw.wasRevalidated`): a RevalidatingWriter sends the stored validator
+  (`Conditional.surgery`: `If-None-Match: <stored ETag>`); a 304 that does not forbid caching
+  re-publishes the entry as it is on disk — status, body and RedirectedURL untouched, `Revalidated
+  = now`, the 304's headers merged (`Conditional.merge304`) — and `cachingFunc` re-enters with the
+  SAME request, `overrideURL = nil`, `frf = reqres.FinalRoutingFlavors` and `skipRevalidate = true`.
+  That re-entry is not a redirect and is not counted; an activation that runs with `skipRevalidate`
+  is never handed a RevalidatingWriter (`Freshness.decide`), so it cannot take the 304 row itself:
+  between two counted redirects there is at most one such activation
+  (`Props.C18Cache.run_not_runaway`: nesting ≤ 2 · (maxRedirects + 1)).
   Sequential histories: the only holder of a key's lock is an activation further up the SAME
   stack; waiting for it is a 30 s self-deadlock (`Outcome.selfwait`).
 
@@ -45,12 +59,15 @@ structure OResp where
   location : Bytes := []
   cacheControl : Bytes := []
   body : Bytes := []
+  /-- the validator: the `ETag` line (`[]` = none) -/
+  etag : Bytes := []
   deriving Repr, DecidableEq
 
 /-- the response headers this slice looks at -/
 def OResp.header (r : OResp) : Header :=
   (if r.cacheControl = [] then [] else [(b!"Cache-Control", [r.cacheControl])]) ++
-  (if r.location = [] then [] else [(b!"Location", [r.location])])
+  (if r.location = [] then [] else [(b!"Location", [r.location])]) ++
+  (if r.etag = [] then [] else [(b!"Etag", [r.etag])])
 
 /-- one stored response: the part of `StorageMetadata` + file the handler reads back -/
 structure Entry where
@@ -64,12 +81,33 @@ structure Entry where
   revalidated : Int
   deriving Repr
 
+/-- `SetRevalidatedAndClose(h304)` then `storageWriter.Close` on its branch `sw.fd == nil &&
+    sw.wasRevalidated` (disk.go:1057-1072, 1124-1136): the metadata is read back from the file,
+    `Revalidated` is stamped, the 304's header lines are merged over the stored ones (a
+    `Content-Length: 0` of the 304 dropped first); status, size, body and RedirectedURL are kept
+    as stored -/
+def Entry.after304 (e : Entry) (h304 : Header) (now : Int) : Entry :=
+  { e with revalidated := now,
+           header := Conditional.merge304 e.header (Conditional.dropZeroContentLength h304) }
+
 /-- storage id and key string (what `FsName` hashes) -/
 abbrev StoreKey := Bytes × Bytes
 abbrev Store := List (StoreKey × Entry)
 
 def Store.get (s : Store) (k : StoreKey) : Option Entry := (s.find? (·.1 = k)).map (·.2)
 def Store.put (s : Store) (k : StoreKey) (e : Entry) : Store := (k, e) :: s.filter (·.1 ≠ k)
+
+/-- `cr.Metadata.Header` of a RevalidatingWriter: the stored response header -/
+def Store.headerOf (s : Store) (k : StoreKey) : Header :=
+  match s.get k with
+  | some e => e.header
+  | none => []
+
+/-- the store after `cr.Writer.SetRevalidatedAndClose(reqres.Response.Header)` for key `k` -/
+def Store.revalidate (s : Store) (k : StoreKey) (h304 : Header) (now : Int) : Store :=
+  match s.get k with
+  | some e => s.put k (e.after304 h304 now)
+  | none => s
 
 structure Cfg where
   rules : List Rule
@@ -102,6 +140,8 @@ structure Act where
   /-- `redirects`, the counter in `cachingHandler`'s closure, as this activation finds it: the
       redirects followed so far for this client request -/
   hops : Nat := 0
+  /-- `skipRevalidate`: true only on the re-entry after a 304 (server.go:395) -/
+  skipRevalidate : Bool := false
   deriving Repr
 
 /-- what is written to the client -/
@@ -216,7 +256,7 @@ def keyOf (rule : Rule) (r : Redirect.Req) : Bytes :=
 
 /-- what `cache.Get` hands the handler -/
 inductive Got where
-  | found (e : Entry) (age : Int)
+  | found (e : Entry) (age : Int) (stale : Bool)
   | writer (revalidating : Bool)
   /-- `NotFoundReader` / `RevalidatingReader` with a wait channel: somebody holds the key -/
   | wait
@@ -224,13 +264,16 @@ inductive Got where
   deriving Repr
 
 /-- `cache.Get` + `getReaderOrWriter`; `locked` = `waitingReaders[rk]` exists -/
-def cacheGet (store : Store) (sk : StoreKey) (locked : Bool) (now : Int) (force : Nat) : Got :=
+def cacheGet (store : Store) (sk : StoreKey) (locked : Bool) (now : Int) (force : Nat)
+    (skipRevalidate : Bool := false) : Got :=
   match store.get sk with
   | none => if locked then .wait else .writer false
   | some e =>
     match Freshness.get locked { header := e.header, created := e.created, revalidated := e.revalidated }
-            now force false [] [] none with
-    | .ok (.foundFresh age) => .found e age
+            now force skipRevalidate [] [] none with
+    | .ok (.foundFresh age) => .found e age false
+    -- `IsStale`: only with skipRevalidate (the entry is due, but the origin has just confirmed it)
+    | .ok (.foundStale age) => .found e age true
     | .ok (.revalidatingWriter _) => .writer true
     | .ok (.revalidatingReader _) => .wait
     | _ => .outside
@@ -259,117 +302,186 @@ def staleIfErrorGranted (store : Store) (sk : StoreKey) : Bool :=
   | some e => (getCacheControlDirectives e.header).staleIfError.isSome
   | none => false
 
-/-- the hit's `richie-edge-cache` (server.go:216-224; never stale here) -/
-def hitStatus (inc : Inc) : Bytes :=
-  if inc.status = [] then b!"hit" else if inc.status = b!"pass" then b!"hit" else inc.status
+/-- the hit's `richie-edge-cache` (server.go:234-242) -/
+def hitStatus (inc : Inc) (stale : Bool := false) : Bytes :=
+  if inc.status = [] then (if stale then b!"stale" else b!"hit")
+  else if inc.status = b!"pass" then b!"hit" else inc.status
 
-/-! ### cachingFunc -/
+/-- the header surgery of a writer-kind cache result (server.go:346-357): `If-None-Match` with the
+    stored validator for a RevalidatingWriter, the client's own conditional headers deleted for a
+    NotFoundWriter (no Range in this domain) -/
+def surgeryOf (revalidating : Bool) (client stored : Header) : Conditional.Surgery :=
+  Conditional.surgery (if revalidating then .revalidating else .notFound) false client stored
 
-/-- `cachingFunc`; `fuel` bounds the number of nested activations, `locks` = the keys (FsName
-    inputs) whose writers are further up the stack -/
+/-- `r.Header` after `r.Header.Del(usedRevalidateHeader)` (server.go:382-383) -/
+def afterDel (sg : Conditional.Surgery) : Header :=
+  if sg.used.length > 0 then sg.req.del sg.used else sg.req
+
+/-- `r.Header` as the 304 re-entry gets it: the client's own validator restored (server.go:390-392) -/
+def afterRestore (sg : Conditional.Surgery) : Header :=
+  if sg.clientKey.length > 0 ∧ sg.clientVal.length > 0 then (afterDel sg).set sg.clientKey sg.clientVal else afterDel sg
+
+/-! ### cachingFunc
+
+   One activation is `step`: it either ends (`Step.done`) or calls `cachingFunc` again
+   (`Step.reenter`) and, when that call returns, finishes with `Step.finish`.  The rows of the
+   activation are small functions of their own (`uncachedRow`, `foundRow`, `writerRow` →
+   `afterAnswer`), so that the theorems can take them one at a time. -/
+
+inductive Step where
+  | done (o : Outcome)
+  /-- `cachingFunc(w, a.req, a.overrideURL, …)` with the lock set and the store as this activation
+      leaves them; `contact` = the origin contact this activation made before; `put` = the hop
+      this activation publishes AFTER the re-entry has returned (writer path) -/
+  | reenter (locks : List Bytes) (store : Store) (a : Act) (contact : Option Contact) (put : Option (StoreKey × Entry))
+
+/-- back from the re-entry -/
+def Step.finish (contact : Option Contact) (put : Option (StoreKey × Entry)) (o : Outcome) : Outcome :=
+  match contact, put with
+  | none, _ => o
+  | some c, none => o.prepend c
+  | some c, some (sk, entry) =>
+    match o with
+    -- the hop itself goes to the cache, not to the client
+    | .done d => .done { sent := d.sent, contacts := c :: d.contacts, store := d.store.put sk entry }
+    | o => o.prepend c
+
+/-- the uncached branch (server.go:112-150) -/
+def uncachedRow (cfg : Cfg) (locks : List Bytes) (store : Store) (a : Act) (r : Redirect.Req) (rf : Option Rule) : Step :=
+  let restartRf := (rf.map (·.restartOnRedirect)).getD false
+  match route cfg r a.overrideURL rf with
+  | .error e => .done (.done (e.done store))
+  | .ok rt =>
+    match rt.redir with
+    | some redir =>
+      if restartRf then
+        if urlEquals redir r.url then
+          .done (.done { sent := .userError 508 b!"Loop detected", contacts := [rt.contact], store := store })
+        -- redirects++; if redirects > maxRedirects { 508 }
+        else if a.hops + 1 > cfg.maxRedirects then
+          .done (.done { sent := .userError 508 b!"Loop detected", contacts := [rt.contact], store := store })
+        else
+          let lvl := reenter { r := r, rf := rf, rule := rt.rule, contact := rt.contact } redir
+          .reenter locks store { req := lvl.req, overrideURL := none, frf := rf, inc := a.inc, hops := a.hops + 1 } (some rt.contact) none
+      else
+        .done (.done { sent := .response rt.resp.status rt.resp.body rt.resp.location { a.inc with status := b!"pass" },
+                       contacts := [rt.contact], store := store })
+    | none =>
+      .done (.done { sent := .response rt.resp.status rt.resp.body rt.resp.location { a.inc with status := b!"pass" },
+                     contacts := [rt.contact], store := store })
+
+/-- `case caching.Found` (server.go:216-281) -/
+def foundRow (cfg : Cfg) (locks : List Bytes) (store : Store) (a : Act) (r : Redirect.Req) (rule : Rule)
+    (e : Entry) (age : Int) (stale : Bool) : Step :=
+  if rule.restartOnRedirect ∧ cfg.isRedirect e.status then
+    -- server.go:217-231: no URL is compared with any other; the redirect is counted;
+    -- alwaysInclude starts afresh
+    match requestWithRedirect r e.redirectedURL with
+    | none => .done (.done { sent := .plainError, contacts := [], store := store })
+    | some rr =>
+      -- redirects++; if redirects > maxRedirects { cache.Finish(key); 508 }
+      if a.hops + 1 > cfg.maxRedirects then
+        .done (.done { sent := .userError 508 b!"Loop detected", contacts := [], store := store })
+      else
+        .reenter locks store { req := rr, overrideURL := some rr.url, frf := some rule, inc := {}, hops := a.hops + 1 } none none
+  else
+    .done (.done { sent := .response e.status e.body (e.header.get b!"Location") { status := hitStatus a.inc stale, age := some age },
+                   contacts := [], store := store })
+
+/-- the writer rows after the origin has answered (server.go:365-487); `r` = the request after
+    `r.Header.Del(usedRevalidateHeader)`, `sg` = the header surgery that was applied -/
+def afterAnswer (cfg : Cfg) (now : Int) (locks : List Bytes) (store : Store) (a : Act) (r : Redirect.Req)
+    (ks : Bytes) (sk : StoreKey) (revalidating : Bool) (sg : Conditional.Surgery) (rt : Routed) : Step :=
+  -- rf = reqres.FinalRoutingFlavors
+  let rfF := rt.rule
+  let dirs := getCacheControlDirectives rt.resp.header
+  if sg.used.length > 0 ∧ rt.resp.status = 304 ∧ dirs.doNotCache = false then
+    -- server.go:384-397: SetRevalidatedAndClose (the key is released by Close), the client's own
+    -- validator restored, "revalidated"; cachingFunc(w, r, nil, alwaysInclude, &rf, true) — the
+    -- same request, NOT a redirect: the counter stays
+    .reenter locks (store.revalidate sk rt.resp.header now)
+      { req := { r with headers := afterRestore sg }, overrideURL := none, frf := some rfF,
+        inc := { a.inc with status := b!"revalidated" }, hops := a.hops, skipRevalidate := true } (some rt.contact) none
+  else if dirs.doNotCache then
+    -- "uncacheable": plain writer, nothing stored — and a redirect is NOT followed
+    .done (.done { sent := .response rt.resp.status rt.resp.body rt.resp.location { a.inc with status := b!"uncacheable" },
+                   contacts := [rt.contact], store := store })
+  else if revalidating && decide (rt.resp.status ≥ 400) && staleIfErrorGranted store sk then
+    .done (.done { sent := .outside, contacts := [rt.contact], store := store })
+  else if ¬ inGate cfg rt.resp.status ∨ (rt.resp.status = 200 ∧ rt.resp.body = []) then
+    .done (.done { sent := .outside, contacts := [rt.contact], store := store })
+  else
+  let inc1 : Inc := { status := if revalidating then b!"revalidated" else b!"miss", age := some 0 }
+  match rt.redir with
+  | some redir =>
+    if urlEquals redir r.url then
+      .done (.done { sent := .userError 508 b!"Loop detected", contacts := [rt.contact], store := store })
+    else
+      let lvl := reenter { r := r, rf := some rfF, rule := rfF, contact := rt.contact } redir
+      -- cr.Writer.SetRedirectedURL(redirectedUrl): rendered by Close, i.e. after the re-entry
+      let entry := entryOf rt.resp (urlString lvl.req.url) now revalidating
+      if rfF.restartOnRedirect then
+        -- redirects++; if redirects > maxRedirects { 508 }: the writer is abandoned as on
+        -- the urlEquals branch, nothing is stored for this hop
+        if a.hops + 1 > cfg.maxRedirects then
+          .done (.done { sent := .userError 508 b!"Loop detected", contacts := [rt.contact], store := store })
+        else
+          -- SetClientWritesDisabled; cachingFunc(w, rr, rr.URL, alwaysInclude, &rf, false); back from
+          -- it the hop is published
+          .reenter (ks :: locks) store
+            { req := lvl.req, overrideURL := some lvl.req.url, frf := some rfF, inc := inc1, hops := a.hops + 1 }
+            (some rt.contact) (some (sk, entry))
+      else
+        .done (.done { sent := .response rt.resp.status rt.resp.body rt.resp.location inc1,
+                       contacts := [rt.contact], store := store.put sk entry })
+  | none =>
+    .done (.done { sent := .response rt.resp.status rt.resp.body rt.resp.location inc1,
+                   contacts := [rt.contact], store := store.put sk (entryOf rt.resp [] now revalidating) })
+
+/-- `case NotFoundWriter, RevalidatingWriter` (server.go:334-487) -/
+def writerRow (cfg : Cfg) (now : Int) (locks : List Bytes) (store : Store) (a : Act) (r : Redirect.Req)
+    (rf : Option Rule) (ks : Bytes) (sk : StoreKey) (revalidating : Bool) : Step :=
+  -- server.go:346-357: the stored validator goes onto the request of a RevalidatingWriter
+  let sg := surgeryOf revalidating r.headers (store.headerOf sk)
+  match route cfg { r with headers := sg.req } a.overrideURL rf with
+  | .error e => .done (.done (e.done store))
+  | .ok rt =>
+    -- r.Header.Del(usedRevalidateHeader)
+    afterAnswer cfg now locks store a { r with headers := afterDel sg } ks sk revalidating sg rt
+
+/-- ONE activation of `cachingFunc`; `locks` = the keys (FsName inputs) whose writers are further
+    up the stack -/
+def step (cfg : Cfg) (now : Int) (locks : List Bytes) (store : Store) (a : Act) : Step :=
+  -- rf := router.GetRoutingFlavors(r); r = preprocessHeaders(r, rf.RequestHeaders)
+  match query a.req with
+  | .panic _ => .done (.done { sent := .panicked, contacts := [], store := store })
+  | .ok q1 =>
+  let matched := matchedRule cfg.rules q1
+  let r : Redirect.Req := { a.req with headers := preprocess a.req.headers ((matched.map (·.requestHeaders)).getD []) }
+  -- if len(rf.CacheId) == 0 && frf != nil { rf = *frf }
+  let rf := effectiveRule matched a.frf
+  let cacheId := (rf.map (·.cacheId)).getD []
+  if cacheId.length = 0 ∨ ¬ cfg.hasStorage cacheId ∨ ¬ (r.method = b!"GET" ∨ r.method = b!"HEAD") then
+    uncachedRow cfg locks store a r rf
+  else
+  match rf with
+  | none => .done (.done { sent := .outside, contacts := [], store := store })     -- unreachable: a cache id comes from a rule
+  | some rule =>
+  let ks := keyOf rule r
+  let sk : StoreKey := (cacheId, ks)
+  match cacheGet store sk (locks.contains ks) now rule.forceRevalidate a.skipRevalidate with
+  | .outside => .done (.done { sent := .outside, contacts := [], store := store })
+  | .wait => .done (.selfwait [])
+  | .found e age stale => foundRow cfg locks store a r rule e age stale
+  | .writer revalidating => writerRow cfg now locks store a r rf ks sk revalidating
+
+/-- `cachingFunc`; `fuel` bounds the number of nested activations -/
 def run (cfg : Cfg) (now : Int) : Nat → List Bytes → Store → Act → Outcome
   | 0, _, _, _ => .runaway []
   | n + 1, locks, store, a =>
-    -- rf := router.GetRoutingFlavors(r); r = preprocessHeaders(r, rf.RequestHeaders)
-    match query a.req with
-    | .panic _ => .done { sent := .panicked, contacts := [], store := store }
-    | .ok q1 =>
-    let matched := matchedRule cfg.rules q1
-    let r : Redirect.Req := { a.req with headers := preprocess a.req.headers ((matched.map (·.requestHeaders)).getD []) }
-    -- if len(rf.CacheId) == 0 && frf != nil { rf = *frf }
-    let rf := effectiveRule matched a.frf
-    let cacheId := (rf.map (·.cacheId)).getD []
-    let restartRf := (rf.map (·.restartOnRedirect)).getD false
-    if cacheId.length = 0 ∨ ¬ cfg.hasStorage cacheId ∨ ¬ (r.method = b!"GET" ∨ r.method = b!"HEAD") then
-      -- the uncached branch (server.go:106-138)
-      match route cfg r a.overrideURL rf with
-      | .error e => .done (e.done store)
-      | .ok rt =>
-        match rt.redir with
-        | some redir =>
-          if restartRf then
-            if urlEquals redir r.url then
-              .done { sent := .userError 508 b!"Loop detected", contacts := [rt.contact], store := store }
-            -- redirects++; if redirects > maxRedirects { 508 }
-            else if a.hops + 1 > cfg.maxRedirects then
-              .done { sent := .userError 508 b!"Loop detected", contacts := [rt.contact], store := store }
-            else
-              let lvl := reenter { r := r, rf := rf, rule := rt.rule, contact := rt.contact } redir
-              (run cfg now n locks store { req := lvl.req, overrideURL := none, frf := rf, inc := a.inc, hops := a.hops + 1 }).prepend rt.contact
-          else
-            .done { sent := .response rt.resp.status rt.resp.body rt.resp.location { a.inc with status := b!"pass" },
-                    contacts := [rt.contact], store := store }
-        | none =>
-          .done { sent := .response rt.resp.status rt.resp.body rt.resp.location { a.inc with status := b!"pass" },
-                  contacts := [rt.contact], store := store }
-    else
-    match rf with
-    | none => .done { sent := .outside, contacts := [], store := store }     -- unreachable: a cache id comes from a rule
-    | some rule =>
-    let ks := keyOf rule r
-    let sk : StoreKey := (cacheId, ks)
-    match cacheGet store sk (locks.contains ks) now rule.forceRevalidate with
-    | .outside => .done { sent := .outside, contacts := [], store := store }
-    | .wait => .selfwait []
-    | .found e age =>
-      if rule.restartOnRedirect ∧ cfg.isRedirect e.status then
-        -- server.go:213-226: no URL is compared with any other; the redirect is counted;
-        -- alwaysInclude starts afresh
-        match requestWithRedirect r e.redirectedURL with
-        | none => .done { sent := .plainError, contacts := [], store := store }
-        | some rr =>
-          -- redirects++; if redirects > maxRedirects { cache.Finish(key); 508 }
-          if a.hops + 1 > cfg.maxRedirects then
-            .done { sent := .userError 508 b!"Loop detected", contacts := [], store := store }
-          else
-            run cfg now n locks store { req := rr, overrideURL := some rr.url, frf := some rule, inc := {}, hops := a.hops + 1 }
-      else
-        .done { sent := .response e.status e.body (e.header.get b!"Location") { status := hitStatus a.inc, age := some age },
-                contacts := [], store := store }
-    | .writer revalidating =>
-      match route cfg r a.overrideURL rf with
-      | .error e => .done (e.done store)
-      | .ok rt =>
-        -- rf = reqres.FinalRoutingFlavors
-        let rfF := rt.rule
-        let dirs := getCacheControlDirectives rt.resp.header
-        if dirs.doNotCache then
-          -- "uncacheable": plain writer, nothing stored — and a redirect is NOT followed
-          .done { sent := .response rt.resp.status rt.resp.body rt.resp.location { a.inc with status := b!"uncacheable" },
-                  contacts := [rt.contact], store := store }
-        else if revalidating && decide (rt.resp.status ≥ 400) && staleIfErrorGranted store sk then
-          .done { sent := .outside, contacts := [rt.contact], store := store }
-        else if ¬ inGate cfg rt.resp.status ∨ (rt.resp.status = 200 ∧ rt.resp.body = []) then
-          .done { sent := .outside, contacts := [rt.contact], store := store }
-        else
-        let inc1 : Inc := { status := if revalidating then b!"revalidated" else b!"miss", age := some 0 }
-        match rt.redir with
-        | some redir =>
-          if urlEquals redir r.url then
-            .done { sent := .userError 508 b!"Loop detected", contacts := [rt.contact], store := store }
-          else
-            let lvl := reenter { r := r, rf := some rfF, rule := rfF, contact := rt.contact } redir
-            -- cr.Writer.SetRedirectedURL(redirectedUrl): rendered by Close, i.e. after the re-entry
-            let entry := entryOf rt.resp (urlString lvl.req.url) now revalidating
-            if rfF.restartOnRedirect then
-              -- redirects++; if redirects > maxRedirects { 508 }: the writer is abandoned as on
-              -- the urlEquals branch, nothing is stored for this hop
-              if a.hops + 1 > cfg.maxRedirects then
-                .done { sent := .userError 508 b!"Loop detected", contacts := [rt.contact], store := store }
-              else
-              -- SetClientWritesDisabled; cachingFunc(w, rr, rr.URL, alwaysInclude, &rf, false)
-              match run cfg now n (ks :: locks) store
-                      { req := lvl.req, overrideURL := some lvl.req.url, frf := some rfF, inc := inc1, hops := a.hops + 1 } with
-              | .done d =>
-                -- back from the re-entry: the hop itself goes to the cache, not to the client
-                .done { sent := d.sent, contacts := rt.contact :: d.contacts, store := d.store.put sk entry }
-              | o => o.prepend rt.contact
-            else
-              .done { sent := .response rt.resp.status rt.resp.body rt.resp.location inc1,
-                      contacts := [rt.contact], store := store.put sk entry }
-        | none =>
-          .done { sent := .response rt.resp.status rt.resp.body rt.resp.location inc1,
-                  contacts := [rt.contact], store := store.put sk (entryOf rt.resp [] now revalidating) }
+    match step cfg now locks store a with
+    | .done o => o
+    | .reenter locks' store' a' contact put => Step.finish contact put (run cfg now n locks' store' a')
 
 /-- the client's request as `net/http` hands it to the handler -/
 def clientAct (target host : Bytes) : Option Act :=
